@@ -2239,11 +2239,25 @@ fn eval_int_binop(
                 ));
             }
 
-            Value::new(Value_::Int(lhs_num / rhs_num))
+            match lhs_num.checked_div(rhs_num) {
+                Some(num) => Value::new(Value_::Int(num)),
+                None => {
+                    return Err((
+                        RestoreValues(vec![lhs_value.clone(), rhs_value.clone()]),
+                        EvalError::Exception(ExceptionInfo {
+                            position: position.clone(),
+                            message: ErrorMessage(vec![Text(format!(
+                                "Integer overflow on dividing {} by {}.",
+                                lhs_value.display(env),
+                                rhs_value.display(env),
+                            ))]),
+                        }),
+                    ));
+                }
+            }
         }
-        BinaryOperatorKind::Modulo => match lhs_num.checked_rem_euclid(rhs_num) {
-            Some(num) => Value::new(Value_::Int(num)),
-            None => {
+        BinaryOperatorKind::Modulo => {
+            if rhs_num == 0 {
                 return Err((
                     RestoreValues(vec![lhs_value.clone(), rhs_value.clone()]),
                     EvalError::Exception(ExceptionInfo {
@@ -2255,7 +2269,9 @@ fn eval_int_binop(
                     }),
                 ));
             }
-        },
+
+            Value::new(Value_::Int(lhs_num.wrapping_rem_euclid(rhs_num)))
+        }
         BinaryOperatorKind::Exponent => {
             if rhs_num < 0 {
                 return Err((
